@@ -9,6 +9,7 @@ TARGETS = {
     "t_faults": dict(variant="fuzzrel", srcs=["t_faults.cc"], libs=RC),
     "t_tet": dict(variant="asan", srcs=["t_tet.cc"], libs=RC),
     "t_hex": dict(variant="asan", srcs=["t_hex.cc"], libs=RC),
+    "t_registry": dict(variant="asan", srcs=["t_registry.cc"], libs=RC),
     "t_handles": dict(variant="opt", srcs=["t_handles.cc"], libs="-lpthread"),
 }
 
@@ -282,6 +283,25 @@ CHECKS = {
         technique="rapidcheck polycube histories + exhaustive per-cell convention / navigation sweep against brute-force adjacency",
         level_text="Generated hexahedral states with every cell checked against the layout convention derived from brute-force in-cell adjacency.",
         level_note="Lattice 4x3x3 (36 cells, 80 vertices).",
+    ),
+    "C14": dict(
+        kind="rc_program", target="t_registry", level="exploration",
+        quick=dict(workers=16, max_success=6000, max_size=100, len_scale=0.8, timeout=900),
+        thorough=dict(workers=16, max_success=60000, max_size=100, len_scale=2.0, timeout=3600),
+        rule=("cases = random sequences of request / create_shared / create_persistent / create_private / get_property / "
+              "set_shared / set_persistent / set_name, handle copies, moves and drops (8 handle slots), clear_props<kind>, "
+              "clear_all_props, clear(), mesh copy-construction, assignment and destruction (2 meshes), entity growth, "
+              "over 3 value types x 4 entity kinds x the colliding names {'', 'a', 'b'}. An explicit model of the registry "
+              "(storages with kind/type/name/shared/persistent/#handles/mesh) predicts after EVERY op: returned optional, "
+              "storage identity, shared()/persistent()/anonymous()/name(), operator bool, size, n_props, "
+              "n_persistent_props, the persistent iteration, property_exists for every (kind,type,name), the invariant "
+              "persistent => shared => named and unique, and that illegal transitions throw and change nothing. "
+              "non-trivial = a case with a name collision / illegal transition AND a lifetime event (drop, clear, mesh "
+              "copy / destruction); distinct = distinct program hash"),
+        assumptions=["ASan + LeakSanitizer judge memory safety of the handle / mesh lifetime interleavings"],
+        technique="rapidcheck model-based stateful testing of the property registry",
+        level_text="Model-based state machine test with full observation after every step, under ASan/LSan.",
+        level_note="SmartTagger is a thin wrapper over private properties and is not driven separately.",
     ),
 }
 
